@@ -257,6 +257,7 @@ def run(ctx):
     for i in range(nsites):
         site = cc.gen_site(rng, size=rng.randint(3, 6), offsite=False)
         opts = cc.gen_options(rng, levelfree=True)
+        opts['tries'] = rng.choice([1, 1, 2, 3])        # a try count carried across the kill must not eat the only try
         conc = rng.choice([1, 2, 3])
         total += explore_site(ctx, site, opts, conc, rng.randrange(1 << 30)) or 0
     ctx.exhaustive = False
